@@ -92,6 +92,10 @@ func checkSolve(c solveCase) *vk.Failure {
 			T.d[sm.Intn(n)*(n+1)] = 0
 			singular = true
 		}
+		if c.Class == "illcond" {
+			T.d[sm.Intn(n)*(n+1)] *= 1e-22
+			ill = true
+		}
 		kind := mat.Lower
 		if upper {
 			kind = mat.Upper
@@ -253,6 +257,19 @@ func checkSolve(c solveCase) *vk.Failure {
 			return failf("error-value", "Condition error %g does not exceed ConditionTolerance", cv)
 		}
 		return nil
+	}
+	if triBound != nil && ill {
+		// TriDense.SolveTo: no error means that the condition estimate, which is
+		// at least ||T||*altLower, does not exceed ConditionTolerance.
+		base := Op
+		if c.TransA {
+			base = Op.t() // the stored triangle, on which Trcon works
+		}
+		if _, _, inv, okInv := luRef(base); okInv {
+			if lo := normInf(base) * altLower(inv.t()); lo > mat.ConditionTolerance*(1+1e-3) {
+				return failf("tri-missed-condition-error", "%s: Solve with a triangular matrix whose condition estimate is at least %g > ConditionTolerance returned a nil error", desc, lo)
+			}
+		}
 	}
 	if ill && x.hasNaN() {
 		return nil
